@@ -20,6 +20,7 @@ func init() {
 		ruleG5(c, "C08.G5")
 		ruleA2(c, "C08.G6")
 		ruleS3(c, "C08.G7")
+		ruleT3(c, "C08.G8")
 	}
 }
 
